@@ -535,9 +535,17 @@ class World:
         # chains: also forward from a far ancestor chosen by the seed
         for hop, src in enumerate(chain):
             vs = check_forwarding(
-                src, p_out, self.probes, max_stmts=self.cfg.get("fwd_max_stmts", 150), rng=self.rng,
+                src, p_out, self.probes, max_stmts=self.cfg.get("fwd_max_stmts", 150), rng=None,
                 want_gaps=(hop == 0), want_blocks=(hop == 0),
             )
+            if vs and hop > 0:
+                old = check_forwarding(src, p_in, Probes(), max_stmts=self.cfg.get("fwd_max_stmts", 150), rng=None,
+                                       want_gaps=False, want_blocks=False)
+                bad = {repr(v["path"]) for v in old}
+                kept = [v for v in vs if repr(v["path"]) not in bad]
+                if len(kept) != len(vs):
+                    self.probes.hit("fwd_inherited_violation", len(vs) - len(kept))
+                vs = kept
             for v in vs[:6]:
                 self.violation(
                     "C06",
@@ -555,20 +563,35 @@ class World:
         if id(root) in self.tainted:
             return
         in_ir = p_in._loopir_proc if p_in is not None else None
+        vs = self.sem.check(root._loopir_proc, p_out._loopir_proc, op_name=name.split("[")[0], in_ir=in_ir)
+        if vs:
+            self.tainted.add(id(p_out))
+        for v in vs:
+            key = {"op": name, "sig": v["sig"]}
+            if v["sig"] == "unbound-use" and p_in is not None:
+                from .oracles.validator import binder_kind
+
+                key["binder"] = binder_kind(p_in._loopir_proc, v["detail"].split(" ")[0])
+            self.violation(v["prop"], v["sig"], f"after {name}: {v['detail']}", key)
+        return
         for v in self.sem.check(root._loopir_proc, p_out._loopir_proc, op_name=name.split("[")[0], in_ir=in_ir):
             self.violation(
                 v["prop"], v["sig"], f"after {name}: {v['detail']}", {"op": name, "sig": v["sig"]}
             )
 
     def _check_valid(self, name, p_in, p_out):
-        from .oracles.validator import validate
+        from .oracles.validator import validate, binder_kind
 
-        bad_in = {s for s, _ in validate(p_in._loopir_proc)}
-        for sig, detail in validate(p_out._loopir_proc)[:3]:
+        bad_in = {x[0] for x in validate(p_in._loopir_proc)}
+        for sig, detail, sym in validate(p_out._loopir_proc)[:3]:
             if sig in bad_in:
                 self.probes.hit("valid_inherited_" + sig)
                 continue
-            self.violation("C04", sig, f"after {name}: {detail}", {"op": name, "sig": sig})
+            self.violation(
+                "C04", sig, f"after {name}: {detail}",
+                {"op": name, "sig": sig, "binder": binder_kind(p_in._loopir_proc, sym)},
+            )
+            self.tainted.add(id(p_out))
 
     # ------------------------------------------------------------------ #
 
